@@ -386,7 +386,10 @@ impl Directory {
     /// Worst case, assuming each entity has the linux-max name of 256 bytes is
     /// `n + 1` when `n` is the number of files.
     #[must_use]
-    pub fn read<'a>(&self) -> ReadDir<'a> {
+    pub fn read(&self) -> ReadDir<'_> {
+        // Every iterator starts at the first entry, the descriptor's position may be left
+        // anywhere by an earlier one
+        let _ = rusl::unistd::lseek(self.0 .0, 0, rusl::unistd::Whence::SET);
         let buf = [0u8; 512];
         ReadDir {
             fd: BorrowedFd::new(self.0 .0),
